@@ -23,6 +23,7 @@ FAKE = """#!/bin/sh
 echo "$(basename "$0") $*" >> "$FAKE_LOG"
 cat > "$FAKE_LOG.stdin"
 case "$(basename "$0")" in fakelli-*) echo "fake-lli" ;; esac
+[ "${FAKE_EXIT:-0}" = signal ] && kill -KILL $$
 exit ${FAKE_EXIT:-0}
 """
 
@@ -30,7 +31,7 @@ A_ONE = 'fn main() -> u8\n{\n\tprint!("hi\\n");\n\tvar r: u8 = 3;\n\treturn: r\n
 A_TWO = 'import "b.pn";\n\nfn main() -> u8\n{\n\tprint!("hi\\n");\n\tvar r: u8 = b_three();\n\treturn: r\n}\n'
 B_OK = "pub fn b_three() -> u8\n{\n\treturn: 3\n}\n"
 BAD = {"lex": "\tvar q: u8 = 1 @;\n", "sem": "\tvar q: u8 = nothing;\n"}
-PARAMS = ["sub", "implicit", "verb", "color", "arrows", "wasm", "outdir", "flag", "env", "cfg", "bfail", "input", "nmods", "path", "high"]
+PARAMS = ["sub", "implicit", "verb", "color", "arrows", "wasm", "outdir", "flag", "env", "cfg", "bfail", "input", "nmods", "path", "high", "bsig"]
 
 
 def canon(c):
@@ -106,7 +107,7 @@ def run_config(penne, root, idx, case):
         open(os.path.join(d, "cfg.toml"), "w").write('backend = "fake-cfg"\n')
         args += ["--config", "cfg.toml"]
     if c["bfail"]:
-        env["FAKE_EXIT"] = ("200" if c.get("high") else "7") if lli else "1"
+        env["FAKE_EXIT"] = "signal" if c.get("bsig") else ("200" if c.get("high") else "7") if lli else "1"
     args += [name for name, _ in mods]
     try:
         p = subprocess.run(args, cwd=d, env=env, stdout=subprocess.PIPE, stderr=subprocess.PIPE, timeout=120)
